@@ -72,6 +72,10 @@ func w9Gen(r *rand.Rand, prop, tier string) *simrt.Case {
 	c.Config["topics"] = int64(r.IntN(3))
 	c.Config["sibling"] = w9pick[int64](r, 0, 0, 0, 1)
 	c.Config["drift"] = w9pick[int64](r, 0, 0, 1)
+	if c.Config["drift"] == 1 && r.IntN(2) == 0 {
+		// one of the writes that put the annotated objects back meets a write conflict
+		c.Faults = append(c.Faults, simrt.Fault{Kind: "k8s.conflict.fail_before", Op: "k8s.update", Nth: 2 + r.IntN(10)})
+	}
 	c.Program = []simrt.Op{{Actor: 0, Kind: "reconcile"}}
 	for i := 0; i < w9pick(r, 0, 0, 1, 2, 3); i++ {
 		switch r.IntN(5) {
@@ -399,6 +403,7 @@ func (w *w9) faultsFired() int {
 // and returns the object snapshots after each of the two.
 func (w *w9) settle(r *ClusterReconciler, c client.Client, key types.NamespacedName) (s1, s2 map[string]string, ok bool) {
 	clean := 0
+	var absorbed map[string]string
 	for attempt := 0; attempt < 12 && clean < 2; attempt++ {
 		before := w.faultsFired()
 		res, err := r.Reconcile(context.Background(), ctrl.Request{NamespacedName: key})
@@ -409,6 +414,13 @@ func (w *w9) settle(r *ClusterReconciler, c client.Client, key types.NamespacedN
 		if err != nil || res.RequeueAfter > 0 || w.faultsFired() != before {
 			w.sim.Probe("c42.reconcile-disturbed")
 			clean = 0
+			absorbed = nil
+			if err == nil && res.RequeueAfter == 0 {
+				// a fault was injected and the reconcile absorbed it: it reports success and asks for nothing more,
+				// so what it left behind is what it stands by
+				absorbed, _ = w.snapshot(c, false)
+				w.sim.Probe("c42.reconcile-absorbed-a-fault")
+			}
 			if res.RequeueAfter > 0 {
 				simrt.Sleep(res.RequeueAfter)
 			}
@@ -419,6 +431,14 @@ func (w *w9) settle(r *ClusterReconciler, c client.Client, key types.NamespacedN
 		if serr != nil {
 			w.sim.Fail("HARNESS", "snapshot", "%v", serr)
 			return nil, nil, false
+		}
+		if absorbed != nil {
+			now, _ := w.snapshot(c, false)
+			if d := diffSnap(absorbed, now); d != "" {
+				w.sim.Fail("C42", "successful-reconcile-left-objects-unfinished", "a reconcile met an injected fault, reported success and asked for no requeue; the next reconcile of the unchanged cluster changed a generated object: %s", d)
+				return nil, nil, false
+			}
+			absorbed = nil
 		}
 		if clean == 1 {
 			s1 = snap
